@@ -4,13 +4,13 @@ go 1.23.0
 
 require (
 	github.com/atlassian/escalator v0.0.0
+	github.com/aws/aws-sdk-go v1.55.6
 	github.com/sirupsen/logrus v1.9.3
 	k8s.io/api v0.32.3
 	k8s.io/apimachinery v0.32.3
 )
 
 require (
-	github.com/aws/aws-sdk-go v1.55.6 // indirect
 	github.com/beorn7/perks v1.0.1 // indirect
 	github.com/cespare/xxhash/v2 v2.3.0 // indirect
 	github.com/davecgh/go-spew v1.1.2-0.20180830191138-d8f796af33cc // indirect
